@@ -804,6 +804,8 @@ def run(rep, ctx):
         from . import c04 as _c04
         _c04.builders_total(rep, M, "R17.7")
         defaults_pass_validation(rep, M, "R17.7")
+        from .. import sigs as _sigs
+        _sigs.run(rep, M, "R17.7", scope=M.reachable([FQ]))      # every call below classify binds its arguments to parameters of the right kind
         _c04.masked_index_spaces(rep, M, "R17.7")      # an axis number indexing an array over the periodic vectors raises IndexError out of classify
     rep.rule("R17.8", "the geometry helpers classify rests on (get_dimensionality, get_radii, get_distances, displacement-tensor wrapper, clustering) satisfy their own rules (shared with C09/C10/C19)")
     with rep.guard("R17.8"):
